@@ -610,6 +610,17 @@ class SQLDataStore(datastore.DataStore):
         raise NotFoundError('No such study:', s_resource.name)
       original_study = study_pb2.Study.FromString(row.serialized_study)
 
+      # Split the trial-related metadata by Trial, and resolve the Trial names
+      # before anything is written: a malformed trial id raises here, and must
+      # not leave a half-applied update in the open transaction.
+      split_metadata = collections.defaultdict(list)
+      for md in trial_metadata:
+        split_metadata[md.trial_id].append(md)
+      trial_names = {
+          trial_id: s_resource.trial_resource(trial_id).name
+          for trial_id in split_metadata
+      }
+
       # Store Study-related metadata into the database.
       vz.metadata_util.merge_study_metadata(
           original_study.study_spec, study_metadata
@@ -620,15 +631,9 @@ class SQLDataStore(datastore.DataStore):
       usq = usq.values(serialized_study=original_study.SerializeToString())
       self._write_or_rollback(usq)
 
-      # Split the trial-related metadata by Trial.
-      split_metadata = collections.defaultdict(list)
-      for md in trial_metadata:
-        split_metadata[md.trial_id].append(md)
-
       # Now, we update one Trial at a time:
       for trial_id, md_list in split_metadata.items():
-        t_resource = s_resource.trial_resource(trial_id)
-        trial_name = t_resource.name
+        trial_name = trial_names[trial_id]
 
         # Obtain original trial.
         otq = sqla.select(self._trials_table)
